@@ -44,6 +44,40 @@ func isUniversalMatch(re *syntax.Regexp) bool {
 	return false
 }
 
+// isAnyCharStar reports whether re is `.*` / `(?s:.*)` (greedy or not) or empty: a
+// prefix that matches the empty string.
+func isAnyCharStar(re *syntax.Regexp) bool {
+	if re == nil {
+		return false
+	}
+	if re.Op == syntax.OpEmptyMatch {
+		return true
+	}
+	return re.Op == syntax.OpStar && len(re.Sub) == 1 &&
+		(re.Sub[0].Op == syntax.OpAnyChar || re.Sub[0].Op == syntax.OpAnyCharNotNL)
+}
+
+// isGreedyDotAllStar reports whether re is exactly a greedy `(?s:.*)`.
+func isGreedyDotAllStar(re *syntax.Regexp) bool {
+	return re != nil && re.Op == syntax.OpStar && re.Flags&syntax.NonGreedy == 0 &&
+		len(re.Sub) == 1 && re.Sub[0].Op == syntax.OpAnyChar
+}
+
+// isLiteralThenDotAllStar reports whether re is case-sensitive literals followed by
+// exactly one greedy `(?s:.*)`: once the literal is found the match runs to the end
+// of the haystack.
+func isLiteralThenDotAllStar(re *syntax.Regexp) bool {
+	if re == nil || re.Op != syntax.OpConcat || len(re.Sub) < 2 {
+		return false
+	}
+	for _, sub := range re.Sub[:len(re.Sub)-1] {
+		if sub.Op != syntax.OpLiteral || sub.Flags&syntax.FoldCase != 0 {
+			return false
+		}
+	}
+	return isGreedyDotAllStar(re.Sub[len(re.Sub)-1])
+}
+
 // isStartAnchorOnly checks if an AST only contains start-of-text/line anchors.
 // Patterns like ^, ^+, ^^^ only match at position 0, so if inner literal is
 // found at position 0, the prefix trivially matches.
@@ -150,12 +184,15 @@ type ReverseInnerSearcher struct {
 	forwardDFA      *lazy.DFA
 	prefilter       prefilter.Prefilter
 	pikevm          *nfa.PikeVM
-	innerLen        int  // Length of the inner literal for calculating positions
-	universalPrefix bool // True if prefix is .* (matches everything from start)
-	universalSuffix bool // True if suffix ends with .* (matches everything to end)
-	startAnchored   bool // True if prefix only contains start anchors (^, ^+, etc.)
+	innerLen        int       // Length of the inner literal for calculating positions
+	universalPrefix bool      // True if prefix is .* (matches everything from start)
+	universalSuffix bool      // True if suffix ends with .* (matches everything to end)
+	startAnchored   bool      // True if prefix only contains start anchors (^, ^+, etc.)
+	emptyPrefix     bool      // True if prefix matches the empty string (.*, empty): literal at 0 needs no reverse scan
+	fullDFA         *lazy.DFA // Forward DFA of the FULL pattern: gives the leftmost-first end from the match start
 	fwdCachePool    sync.Pool
 	revCachePool    sync.Pool
+	fullCachePool   sync.Pool
 }
 
 // NewReverseInnerSearcher creates a reverse inner searcher using AST splitting.
@@ -258,12 +295,26 @@ func NewReverseInnerSearcher(
 	// Create PikeVM for fallback (uses full pattern)
 	pikevm := nfa.NewPikeVM(fullNFA)
 
+	// Forward DFA of the full pattern. The first confirmed candidate fixes the match
+	// START; the END is that of the leftmost-first match from there, which for a greedy
+	// prefix lies behind a LATER inner literal (`.*_\. [x-z1-3]+` on "1_. 1 _. 31":
+	// the match is the whole text, not "1_. 1"). Same as ReverseSuffixSearcher.
+	fullDFA, err := lazy.CompileWithConfig(fullNFA, config)
+	if err != nil {
+		return nil, err
+	}
+
 	// Detect universal prefix/suffix for Find optimization
 	// For patterns like `.*connection.*`:
 	//   - universalPrefix: .* prefix means match always starts at 0
 	//   - universalSuffix: .* suffix means match always ends at len(haystack)
-	universalPrefix := isUniversalMatch(innerInfo.PrefixAST)
-	universalSuffix := endsWithUniversalMatch(innerInfo.SuffixAST)
+	//
+	// Both shortcuts are exact only for greedy `(?s:.*)`: a `.` that stops at '\n'
+	// confines the match to the line of the inner literal, `.+` needs a character,
+	// and a suffix like `abc[0-9].*` needs more than the literal before its `.*`.
+	// Everything else goes through the reverse/forward DFA candidate loop.
+	universalSuffix := isLiteralThenDotAllStar(innerInfo.SuffixAST)
+	universalPrefix := isGreedyDotAllStar(innerInfo.PrefixAST) && universalSuffix
 	// Check if prefix is only start anchors (^, ^+, etc.) - trivially matches at position 0
 	startAnchored := isStartAnchorOnly(innerInfo.PrefixAST)
 
@@ -274,13 +325,18 @@ func NewReverseInnerSearcher(
 		forwardDFA:      forwardDFA,
 		prefilter:       pre,
 		pikevm:          pikevm,
+		fullDFA:         fullDFA,
 		innerLen:        innerLen,
 		universalPrefix: universalPrefix,
 		universalSuffix: universalSuffix,
 		startAnchored:   startAnchored,
+		emptyPrefix:     isAnyCharStar(innerInfo.PrefixAST),
 	}
 	s.fwdCachePool = sync.Pool{
 		New: func() any { return s.forwardDFA.NewCache() },
+	}
+	s.fullCachePool = sync.Pool{
+		New: func() any { return s.fullDFA.NewCache() },
 	}
 	s.revCachePool = sync.Pool{
 		New: func() any { return s.reverseDFA.NewCache() },
@@ -412,9 +468,9 @@ func (s *ReverseInnerSearcher) Find(haystack []byte) *Match {
 		}
 
 		// EARLY RETURN: First confirmed match is leftmost by construction!
-		// Forward DFA already finds the longest match from this start position.
-		matchEnd := pos + matchEndRel
-		return NewMatch(matchStart, matchEnd, haystack)
+		// Its end is the end of the leftmost-first match from matchStart.
+		start, end := s.spanFrom(haystack, matchStart, pos+matchEndRel)
+		return NewMatch(start, end, haystack)
 	}
 
 	// Fallback: use PikeVM if no DFA match found
@@ -423,6 +479,23 @@ func (s *ReverseInnerSearcher) Find(haystack []byte) *Match {
 		return NewMatch(start, end, haystack)
 	}
 	return nil
+}
+
+// spanFrom returns the leftmost-first match of the full pattern that starts at
+// matchStart, a start confirmed by the reverse and forward scans around an inner
+// literal (candEnd is the end found through that literal).
+func (s *ReverseInnerSearcher) spanFrom(haystack []byte, matchStart, candEnd int) (start, end int) {
+	fullCache := s.fullCachePool.Get().(*lazy.DFACache)
+	end = s.fullDFA.SearchAtAnchored(fullCache, haystack, matchStart)
+	s.fullCachePool.Put(fullCache)
+	if end >= 0 {
+		return matchStart, end
+	}
+	// DFA gave up — fallback to PikeVM
+	if pStart, pEnd, found := s.pikevm.SearchAt(haystack, matchStart); found && pStart == matchStart {
+		return pStart, pEnd
+	}
+	return matchStart, candEnd
 }
 
 // IsMatch checks if the pattern matches using inner prefilter + bidirectional DFA.
@@ -469,7 +542,7 @@ func (s *ReverseInnerSearcher) IsMatch(haystack []byte) bool {
 		//   - universalPrefix (.*): trivially matches empty prefix
 		//   - startAnchored (^, ^+): trivially matches at position 0
 		prefixMatches := false
-		if pos == 0 && (s.universalPrefix || s.startAnchored) {
+		if pos == 0 && (s.emptyPrefix || s.startAnchored) {
 			// Universal prefix (.*) or start anchor (^) matches at position 0
 			prefixMatches = true
 		} else if pos > 0 {
@@ -582,9 +655,9 @@ func (s *ReverseInnerSearcher) findIndicesAtImpl(haystack []byte, at int, fwdCac
 			continue
 		}
 
-		// Found valid match
-		matchEnd := pos + matchEndRel
-		return matchStart, matchEnd, true
+		// Found valid match: its end is that of the leftmost-first match from matchStart
+		start, end := s.spanFrom(haystack, matchStart, pos+matchEndRel)
+		return start, end, true
 	}
 
 	// Fallback to PikeVM
